@@ -95,7 +95,9 @@ def find(prop, failure, R, info, binpath, timeout=600):
             h = standin.hit_from_sweep(prop, binpath, args, line)
             h['extra']['kani_scenarios_tried'] = tried
             return h['extra']
-    return {'counterexample': None, 'kani_scenarios_tried': tried,
+    held = [t['native_sweep'] for t in tried if t.get('native_sweep') and t['result'].startswith('HOLDS')]
+    all_held = len(held) == len(scs)
+    return {'counterexample': None, 'kani_scenarios_tried': tried, 'spurious_bounded': all_held, 'sweeps_held': '; '.join(held),
             'counterexample_search': 'neither Kani nor the native sweeps found a failing input in the scenarios %s' % ', '.join(scs)}
 
 
